@@ -211,6 +211,42 @@ def run(ck, prog, ctx):
         lost = spec["need"] - read
         ck.ob("COVER", "record/%s/encoder" % name, not lost, "%s: encoder serialises %s%s" % (name, sorted(read & spec["need"]), "" if not lost else "; NOT written: %s" % sorted(lost)), where=encs[0].where())
     ck.floor("COVER", "record types", n_rec, 4)
+    # the encoder serialises each field on its own: a field that is READ for the output only under a test of ANOTHER field of the record
+    # (`if self.obsolete { .. if let Some(r) = self.replacement { write r } }`) is silently left out for the records where that test fails, while
+    # the decoder (field independence, LAYOUT) restores the two separately
+    n_ei = 0
+    for name, spec in sorted(REC.items()):
+        scope_ = []
+        for e in [prog.body(x) for x in spec["enc"]]:
+            if e is None:
+                continue
+            for rid in sorted(prog.reachable_bodies([e.id])):
+                rb_ = prog.bodies.get(rid)
+                if rb_ is not None and not rb_.test and rb_.kind in ("Fn", "AssocFn") and (rb_.id == e.id or (not rb_.exported and not rb_.reachable and re.search(spec["owner"], (rb_.impl_self or {}).get("adt") or ""))):
+                    scope_ += [z for z in prog.family(rb_) if z not in scope_]
+        for b_ in scope_:
+            reads_ = []
+            for (bb_, si_), st_ in b_.stmts():
+                pls = [o.place for o in (st_.ops or []) if o.place is not None]
+                if st_.k == "assign" and st_.rv and st_.rv["k"] in ("ref", "discr", "len") and st_.rv.get("place") is not None:
+                    pls.append(st_.rv["place"])
+                for pl in pls:
+                    for e_ in pl.fields():
+                        if e_ != "*" and e_[0] == "f" and re.search(spec["owner"], e_[2]) and pl.local == 1:
+                            reads_.append((bb_, e_[1], st_.line))
+            for bb_, fld_, line_ in reads_:
+                foreign = set()
+                for sb in sorted(b_.reach):
+                    x = b_.blocks[sb].term
+                    if x.k != "switch" or not any(b_.edge_dominates((sb, tg), bb_) for tg in x.successors()) or all(b_.edge_dominates((sb, tg), bb_) or not b_.can_reach(tg, bb_) for tg in x.successors()) and len([tg for tg in x.successors() if b_.can_reach(tg, bb_) or tg == bb_]) > 1:
+                        continue
+                    fl = {e2[1] for a in pvn.of_operand(b_, x.discr) if a[0] == "field" and re.search(spec["owner"], a[1]) for e2 in [(None, a[2])]}
+                    if fl and fld_ not in fl:
+                        foreign |= fl
+                if foreign:
+                    n_ei += 1
+                    ck.ob("COVER", "record/%s/encoder-independence/%s" % (name, fld_), False, "%s: `%s` is read for the output only under a test of `%s` (another field): records where that test fails are written without it, the decoder restores the two independently" % (b_.short, fld_, "/".join(sorted(foreign))), where=b_.where(line_))
+    ck.extra["encoder reads under a foreign field's test"] = n_ei
     # release version
     mw = prog.body(codec.ONT + "metadata_as_bytes")
     hv = prog.one(r"^ontology::builder::Builder::<T>::hpo_version_from_bytes$")
